@@ -737,6 +737,7 @@ enum Step {
     Silence,
     SubmitK(usize, u8),      // demux T2: caller k, kind b's' single / b'x' AXFR / b'y' IXFR
     ReplyX(usize, XRep),     // demux T2: reply with an answer section to caller k's request
+    Tick,                    // demux T2: let a short non-zero idle timeout expire (real time)
 }
 
 #[derive(Clone, Debug)]
@@ -753,6 +754,7 @@ fn step_tok(s: &Step) -> String {
         Step::ShortFrame => "short".into(), Step::PartialFrame => "partial".into(), Step::AnswerAll => "answerall".into(),
         Step::Silence => "silence".into(),
         Step::SubmitK(k, kind) => format!("sub{}{}", *kind as char, k), Step::ReplyX(k, x) => format!("repx{}{:?}", k, x),
+        Step::Tick => "tick".into(),
     }
 }
 
@@ -834,7 +836,7 @@ async fn run_stream_script(ncallers: usize, idle_ms: u64, steps: Vec<Step>) -> S
             Step::AnswerAll => if wr_open {
                 for k in 0..ncallers { if results.lock().unwrap()[k].is_none() { if let Some(id) = wire_id(&seen, k) { wr_open = frame(&mut wr, &reply(b'G', id, &question(k), false)).await; if !wr_open { break; } } } }
             },
-            Step::Silence | Step::SubmitK(..) | Step::ReplyX(..) => {}
+            Step::Silence | Step::SubmitK(..) | Step::ReplyX(..) | Step::Tick => {}
         }
     }
     // everything must complete once the peer has fallen silent: one response
@@ -992,6 +994,23 @@ async fn run_new_requests_traffic(timeout_ms: u64, total: u64, gap_ms: u64) -> (
     (at, r)
 }
 
+async fn run_timeout_probe_multi(wait_ms: u64) -> Option<String> {
+    let (client, server) = tokio::io::duplex(1 << 16);
+    let mut cfg = stream::Config::new();
+    cfg.set_response_timeout(Duration::from_millis(STREAM_TIMEOUT_MS));
+    let (conn, transport) = stream::Connection::<RequestMessage<Vec<u8>>, RequestMessageMulti<Vec<u8>>>::with_config(client, cfg);
+    let th = tokio::spawn(transport.run());
+    let (rd, _wr) = tokio::io::split(server);
+    let ph = tokio::spawn(peer_reader(rd, Arc::new(Mutex::new(vec![]))));
+    let q = kind_q(0, b'x');
+    let mut qb = MessageBuilder::new_vec().question();
+    qb.push((Name::<Vec<u8>>::from_octets(q.name.clone()).unwrap(), Rtype::from_int(q.qtype))).unwrap();
+    let mut g = SendRequestMulti::send_request(&conn, RequestMessageMulti::new(qb.into_message()).unwrap());
+    let r = tokio::time::timeout(Duration::from_millis(wait_ms), g.get_response()).await;
+    ph.abort(); th.abort();
+    match r { Ok(Ok(_)) => Some("ok".into()), Ok(Err(e)) => Some(err_class(&e)), Err(_) => None }
+}
+
 fn part_stream(out: &mut Out, r: &mut Rng, a: &Args) -> (u64, u64) {
     let rt = tokio::runtime::Builder::new_current_thread().enable_all().build().unwrap();
     // Does the configured response timeout take effect at all?  If it does not,
@@ -1005,6 +1024,14 @@ fn part_stream(out: &mut Out, r: &mut Rng, a: &Args) -> (u64, u64) {
     out.check(probe.is_some(), "response_timeout_config_ignored", &case,
         &format!("stream::Config::set_response_timeout({} ms) has no effect on a single-response request: still waiting after {} ms", STREAM_TIMEOUT_MS, 8000));
     let timeouts_work = probe.is_some();
+    // the same for a multi-response (AXFR) request: set_response_timeout also governs those unless
+    // set_streaming_response_timeout is called afterwards
+    let case = format!("stream timeout-probe-multi set_response_timeout({}ms) silent peer", STREAM_TIMEOUT_MS);
+    out.begin(&case);
+    let probe_m = rt.block_on(run_timeout_probe_multi(8000));
+    out.oracle_case(&case, true, "stream_timeout_probe");
+    out.check(probe_m.is_some(), "response_timeout_config_ignored", &case,
+        &format!("stream::Config::set_response_timeout({} ms) has no effect on a multi-response request: still waiting after 8000 ms", STREAM_TIMEOUT_MS));
     let n = if a.thorough { 2400 } else { 240 } * a.scale;
     let mut scripts: Vec<(usize, u64, Vec<Step>)> = vec![
         // recycled ID: caller 1 inherits ID 0, then a duplicate of caller 0's answer arrives
@@ -1151,13 +1178,15 @@ fn xrep_event(x: &XRep, id: u16, k: usize) -> String {
     format!("p{}:1:{}:{}:{}:0:{}:{}:{}", id, x.rcode, if x.qmode == b'e' { 0 } else { 1 }, x.recs.len(), qs, ans, ka)
 }
 
-async fn run_demux_script(ncallers: usize, idle_zero: bool, steps: Vec<Step>, pipe: usize, chunk: usize) -> (String, String) {
+async fn run_demux_script(ncallers: usize, idle_zero: bool, steps: Vec<Step>, pipe: usize, chunk: usize, tick_idle: bool) -> (String, String) {
     // a small pipe makes the transport's writes partial, a small chunk its reads short
     let (client, server) = tokio::io::duplex(pipe);
     let mut cfg = stream::Config::new();
     cfg.set_response_timeout(Duration::from_secs(600));
     cfg.set_streaming_response_timeout(Duration::from_secs(600));
-    cfg.set_idle_timeout(if idle_zero { Duration::ZERO } else { Duration::from_secs(3600) });
+    // tick scripts: a 10 ms idle timeout that Step::Tick lets expire (60 ms of real time, on the same runtime:
+    // the transport's timer is due first); every other script keeps the idle timer out of the way
+    cfg.set_idle_timeout(if idle_zero { Duration::ZERO } else if tick_idle { Duration::from_millis(10) } else { Duration::from_secs(3600) });
     let (conn, transport) = stream::Connection::<RequestMessage<Vec<u8>>, RequestMessageMulti<Vec<u8>>>::with_config(client, cfg);
     let th = tokio::spawn(transport.run());
     let (rd, mut wr) = tokio::io::split(server);
@@ -1227,6 +1256,7 @@ async fn run_demux_script(ncallers: usize, idle_zero: bool, steps: Vec<Step>, pi
             Step::ShortFrame => if wr_open { wr_open = frame(&mut wr, &[1, 2, 3]).await; evs.push("f".into()); },
             Step::PartialFrame => if wr_open { let _ = wr.write_all(&[0, 100, 1, 2, 3, 4]).await; let _ = wr.shutdown().await; wr_open = false; evs.push("f".into()); },
             Step::Close => if wr_open { let _ = wr.shutdown().await; wr_open = false; evs.push("f".into()); },
+            Step::Tick => { quiesce().await; tokio::time::sleep(Duration::from_millis(60)).await; evs.push("t".into()); },
             _ => {}
         }
         quiesce().await;
@@ -1319,14 +1349,37 @@ fn part_demux(out: &mut Out, r: &mut Rng, a: &Args) {
     scripts.push((3, false, vec![Step::SubmitK(0, b's'), Step::SubmitK(1, b's'), Step::ReplyX(0, xk(Some(0))), Step::Reply(1, b'G'), Step::SubmitK(2, b's')]));
     scripts.push((3, true, vec![Step::SubmitK(0, b's'), Step::ReplyX(0, xk(None)), Step::SubmitK(1, b's')]));
     for _ in 0..n { scripts.push(gen_demux_script(r)); }
-    for (nc, iz, steps) in scripts {
+    // a non-zero idle timeout expiring by time: after every reply the script waits for longer than the
+    // idle timeout, so the connection is closed exactly when that reply left it idle
+    let nticks = if a.thorough { 60 } else { 10 };
+    let mut tick_scripts: Vec<(usize, bool, Vec<Step>)> = vec![
+        (3, false, vec![Step::SubmitK(0, b's'), Step::Reply(0, b'G'), Step::Tick, Step::SubmitK(1, b's')]),
+        (3, false, vec![Step::Tick, Step::SubmitK(0, b's'), Step::SubmitK(1, b's'), Step::Reply(0, b'G'), Step::Tick, Step::Reply(1, b'G'), Step::Tick, Step::SubmitK(2, b's')]),
+        (3, false, vec![Step::SubmitK(0, b'x'), Step::ReplyX(0, xr(b's', 0, vec![soa(1)])), Step::Tick, Step::ReplyX(0, xr(b's', 0, vec![soa(1)])), Step::Tick, Step::SubmitK(1, b's')]),
+    ];
+    for _ in 0..nticks {
+        let (nc, _, steps) = gen_demux_script(r);
+        let mut st2 = Vec::new();
+        for s in steps {
+            let is_reply = matches!(s, Step::Reply(..) | Step::ReplyX(..) | Step::Cross(..) | Step::Junk);
+            let s = match s { Step::ReplyX(k, mut x) => { x.ka = None; Step::ReplyX(k, x) } o => o };
+            st2.push(s);
+            if is_reply { st2.push(Step::Tick); }
+        }
+        tick_scripts.push((nc, false, st2));
+    }
+    let ntick = tick_scripts.len();
+    scripts.extend(tick_scripts);
+    let first_tick = scripts.len() - ntick;
+    for (si, (nc, iz, steps)) in scripts.into_iter().enumerate() {
+        let tick_idle = si >= first_tick;
         out.begin("demux script");
         // caller numbers must be unique per script: the corpus re-submits on purpose only in the model-free part
         let mut seen_k = std::collections::HashSet::new();
         let steps: Vec<Step> = steps.into_iter().filter(|s| match s { Step::Submit(k) | Step::SubmitK(k, _) => seen_k.insert(*k), _ => true }).collect();
         let pipe = *r.pick(&[1usize << 16, 1 << 16, 64, 23, 8]);
         let chunk = *r.pick(&[1usize << 16, 1 << 16, 7, 3, 1]);
-        let (case, obs) = rt.block_on(async { match tokio::spawn(run_demux_script(nc.max(6), iz, steps, pipe, chunk)).await {
+        let (case, obs) = rt.block_on(async { match tokio::spawn(run_demux_script(nc.max(6), iz, steps, pipe, chunk, tick_idle)).await {
             Ok(x) => x,
             Err(e) => ("sm 0".to_string(), format!("Panic {}", match e.try_into_panic() { Ok(p) => p.downcast_ref::<String>().cloned().or_else(|| p.downcast_ref::<&str>().map(|s| s.to_string())).unwrap_or_default(), Err(_) => String::new() })),
         } });
@@ -1754,6 +1807,132 @@ fn part_ms_request(out: &mut Out, r: &mut Rng, a: &Args) {
     }
 }
 
+// ===================================================================== part 3f
+// T2 for the connection-management models where the schedule is deterministic:
+// `msc`: requests over one multi_stream transport with the peer killing the
+// current connection in between (reuse / forced reconnect; no back-off involved
+// because connects succeed); `red`: redundant with upstreams that all give the
+// same result (independent of the randomised probing order).
+
+struct KillShared { connects: u32, kill: Vec<tokio::sync::oneshot::Sender<()>>, q: Q }
+#[derive(Clone)]
+struct KillConnect(Arc<Mutex<KillShared>>);
+impl std::fmt::Debug for KillConnect { fn fmt(&self, f: &mut std::fmt::Formatter<'_>) -> std::fmt::Result { f.write_str("KillConnect") } }
+impl AsyncConnect for KillConnect {
+    type Connection = tokio::io::DuplexStream;
+    type Fut = std::future::Ready<Result<tokio::io::DuplexStream, std::io::Error>>;
+    fn connect(&self) -> Self::Fut {
+        let (c, s) = tokio::io::duplex(1 << 16);
+        let (tx, mut rx) = tokio::sync::oneshot::channel::<()>();
+        let q = { let mut sh = self.0.lock().unwrap(); sh.connects += 1; sh.kill.push(tx); sh.q.clone() };
+        tokio::spawn(async move {
+            let (mut rd, mut wr) = tokio::io::split(s);
+            loop {
+                tokio::select! {
+                    _ = &mut rx => return,          // killed: both halves are dropped
+                    l = rd.read_u16() => {
+                        let len = match l { Ok(l) => l as usize, Err(_) => return };
+                        let mut buf = vec![0u8; len];
+                        if rd.read_exact(&mut buf).await.is_err() { return; }
+                        let id = parse_hdr(&buf).map(|h| h.id).unwrap_or(0);
+                        if !frame(&mut wr, &reply(b'G', id, &q, true)).await { return; }
+                    }
+                }
+            }
+        });
+        std::future::ready(Ok(c))
+    }
+}
+
+#[derive(Debug)]
+struct FixedUp(u8);     // b'e' transport error, otherwise a reply with this RCODE
+#[derive(Debug)]
+struct FixedReq(u8, Option<Vec<u8>>);
+impl SendRequest<RequestMessage<Vec<u8>>> for FixedUp {
+    fn send_request(&self, r: RequestMessage<Vec<u8>>) -> Box<dyn domain::net::client::request::GetResponse + Send + Sync> {
+        Box::new(FixedReq(self.0, r.to_vec().ok()))
+    }
+}
+impl domain::net::client::request::GetResponse for FixedReq {
+    fn get_response(&mut self) -> Pin<Box<dyn Future<Output = Result<Message<bytes::Bytes>, Error>> + Send + Sync + '_>> {
+        let (kind, req) = (self.0, self.1.take());
+        Box::pin(async move {
+            if kind == b'e' { return Err(Error::ConnectionClosed); }
+            let req = req.ok_or(Error::ConnectionClosed)?;
+            let id = parse_hdr(&req).map(|h| h.id).unwrap_or(0);
+            let q = parse_qs(&req).and_then(|v| v.into_iter().next()).unwrap_or(question(0));
+            Ok(Message::from_octets(bytes::Bytes::from(mk_msg(id, true, false, true, kind, [1, 0, 0, 0], &q_wire(&q)))).unwrap())
+        })
+    }
+}
+
+fn part_conn_models(out: &mut Out, r: &mut Rng, a: &Args) {
+    let n = if a.thorough { 1500 } else { 150 } * a.scale;
+    for k in 0..n {
+        let idle_zero = r.chance(1, 3);
+        let ops: String = if k == 0 { "qqkqkkqq".into() } else { (0..r.range(1, 10)).map(|_| if r.chance(2, 3) { 'q' } else { 'k' }).collect() };
+        let case = format!("msc {} {}", idle_zero as u8, ops);
+        out.begin(&case);
+        let q = question(5);
+        let sh = Arc::new(Mutex::new(KillShared { connects: 0, kill: vec![], q: q.clone() }));
+        let (sh2, q2, ops2) = (sh.clone(), q.clone(), ops.clone());
+        let rt = tokio::runtime::Builder::new_current_thread().enable_all().build().unwrap();
+        let obs: Vec<String> = rt.block_on(async move {
+            let mut scfg = stream::Config::new();
+            scfg.set_idle_timeout(if idle_zero { Duration::ZERO } else { Duration::from_secs(3600) });
+            scfg.set_response_timeout(Duration::from_secs(600));
+            let mut cfg = multi_stream::Config::from(scfg);
+            cfg.set_response_timeout(Duration::from_secs(600));
+            let (conn, tr) = multi_stream::Connection::<RequestMessage<Vec<u8>>>::with_config(KillConnect(sh2.clone()), cfg);
+            tokio::spawn(tr.run());
+            let mut v = Vec::new();
+            for op in ops2.chars() {
+                if op == 'k' {
+                    let ks: Vec<_> = sh2.lock().unwrap().kill.drain(..).collect();
+                    for kx in ks { let _ = kx.send(()); }
+                } else {
+                    let c2 = conn.clone(); let q3 = q2.clone();
+                    let h = tokio::spawn(async move { let mut g = SendRequest::send_request(&c2, request_for(&q3)); g.get_response().await });
+                    let ok = matches!(h.await, Ok(Ok(_)));
+                    v.push(format!("{}:{}", ok as u8, sh2.lock().unwrap().connects));
+                }
+                quiesce().await;
+            }
+            v
+        });
+        out.case(&case, &if obs.is_empty() { String::new() } else { obs.join(" ") }, ops.contains('k'), "ms_conn");
+    }
+    for k in 0..n {
+        let nup = 1 + (k % 2) as usize;
+        let (de, dr, ds) = (r.chance(1, 2), r.chance(1, 2), r.chance(1, 2));
+        let res: String = match r.below(5) { 0 => "e".into(), 1 => "g0".into(), 2 => "g5".into(), 3 => "g2".into(), _ => format!("g{}", r.pick(&[0u8, 2, 3, 5])) };
+        let case = format!("red {} {} {} {} {}", nup, de as u8, dr as u8, ds as u8, res);
+        out.begin(&case);
+        let kind: u8 = if res == "e" { b'e' } else { res[1..].parse().unwrap() };
+        let q = question(6);
+        let q2 = q.clone();
+        let rt = paused_rt();
+        let got = rt.block_on(async move {
+            let mut cfg = redundant::Config::default();
+            cfg.set_defer_transport_error(de); cfg.set_defer_refused(dr); cfg.set_defer_servfail(ds);
+            let (conn, tr) = redundant::Connection::<RequestMessage<Vec<u8>>>::with_config(cfg);
+            tokio::spawn(tr.run());
+            for _ in 0..nup { conn.add(Box::new(FixedUp(kind))).await.unwrap(); }
+            let h = tokio::spawn(async move { let mut g = SendRequest::send_request(&conn, request_with_id(&q2, 0x4242, false)); g.get_response().await });
+            match tokio::time::timeout(Duration::from_secs(600), h).await { Ok(Ok(r)) => Some(r.map(|m| m.as_slice().to_vec()).map_err(|e| err_class(&e))), Ok(Err(_)) => Some(Err("panic".into())), Err(_) => None }
+        });
+        let obs = match &got {
+            None => { out.check(false, "never_completes", &case, "redundant request did not complete"); "Pending".to_string() }
+            Some(Err(e)) => { out.check(e != "panic", "panic_transport", &case, "redundant request panicked"); if e == "panic" { "Panic".to_string() } else { "Err".to_string() } }
+            Some(Ok(m)) => {
+                out.check(answers(m, 0x4242, &q), "wrong_reply_delivered", &case, &format!("delivered {}", hex(m)));
+                format!("Ok {}", parse_hdr(m).unwrap().rcode)
+            }
+        };
+        out.case(&case, &obs, true, "redundant");
+    }
+}
+
 fn main() {
     let a = args();
     let mut out = Out::new(&a, "C15", 90);
@@ -1770,5 +1949,6 @@ fn main() {
     if want("selection") { part_selection(&mut out, &mut r, &a); }
     if want("lb_local") { part_lb_local(&mut out, &mut r, &a); }
     if want("ms_request") { part_ms_request(&mut out, &mut r, &a); }
+    if want("conn_models") { part_conn_models(&mut out, &mut r, &a); }
     out.finish(&[("stream_ok_deliveries", format!("{}", okd)), ("stream_error_completions", format!("{}", errd))]);
 }
